@@ -84,13 +84,15 @@ struct TrajCase {
   int restart;   // with split>0: 0 = new run in the same process, 1 = fresh module loading the saved state
   int addcv;     // 0 = never; A>0 = a further variable "e" is defined just before step A
   std::vector<int> word;
+  int toggle = 0;  // T>0: just before step T the script interface flips the velocity column of d ("cv colvar d set output_velocity ...")
+  int flags_at(long s) const { return (toggle > 0 && s >= toggle) ? (flags ^ 2) : flags; }
   std::string json() const
   {
     std::string w = "[";
     for (size_t i = 0; i < word.size(); i++) w += (i ? "," : "") + std::to_string(word[i]);
     return "{\"part\":\"traj\",\"flags\":" + std::to_string(flags) + ",\"freq\":" + std::to_string(freq) +
            ",\"split\":" + std::to_string(split) + ",\"restart\":" + std::to_string(restart) + ",\"define_e_before_step\":" +
-           std::to_string(addcv) + ",\"word\":" + w + "]}";
+           std::to_string(addcv) + (toggle ? ",\"script_flips_output_velocity_before_step\":" + std::to_string(toggle) : std::string()) + ",\"word\":" + w + "]}";
   }
 };
 
@@ -159,7 +161,8 @@ static void check_traj_case(TrajCase const &c, Result &r, std::string const &pre
         place(*px, VALS[c.word[s]]);
         px->set_prefixes(prefix + "b");
         files.push_back(prefix + "b.colvars.traj");
-        std::string conf2 = conf + (have_e ? E_CONF : "");
+        TrajCase c2 = c; c2.flags = c.flags_at(s);
+        std::string conf2 = traj_config(c2) + (have_e ? E_CONF : "");
         if (px->config(conf2) != 0) { fprintf(stderr, "HARNESS-ERROR: traj config rejected at restart: %s\n", px->errtxt.c_str()); exit(3); }
         px->queue_state_text(st);
       }
@@ -167,6 +170,14 @@ static void check_traj_case(TrajCase const &c, Result &r, std::string const &pre
     if (c.addcv > 0 && s == c.addcv && !have_e && s != prev) {
       if (px->config(E_CONF) != 0) { fprintf(stderr, "HARNESS-ERROR: adding variable e rejected: %s\n", px->errtxt.c_str()); exit(3); }
       have_e = true;
+    }
+    if (c.toggle > 0 && s == c.toggle && s != prev) {
+      std::vector<std::string> wv = {"cv", "colvar", "d", "set", "output_velocity", (c.flags & 2) ? "off" : "on"};
+      std::vector<unsigned char *> av;
+      for (auto &x : wv) av.push_back((unsigned char *) x.c_str());
+      cvm::clear_error();
+      if (run_colvarscript_command((int) av.size(), av.data()) != 0) { fprintf(stderr, "library refused the script command: %s\n", px->errtxt.c_str()); exit(3); }
+      cvm::clear_error();
     }
     place(*px, VALS[c.word[s]]);
     px->fsys[0] = cvm::rvector(0.3 * (s + 1), 0, 0);
@@ -271,13 +282,14 @@ static void check_traj_case(TrajCase const &c, Result &r, std::string const &pre
     if (lines[i].step != expect[i]->step) { r.violation("C19:traj:wrong-step-number", c.json()); return; }
     // the announced columns must be exactly the outputs requested at that step
     std::set<std::string> want = {"dv", "fa_dv", "E_hv", "E_w", "W_w"};
-    if (c.flags & 1) want.insert("d");
-    if (c.flags & 2) want.insert("v_d");
-    if (c.flags & 8) want.insert("ft_d");
-    if (c.flags & 4) want.insert("fa_d");
-    if (c.flags & 16) want.insert("E_h");
-    if (c.flags & 32) want.insert("x0_d");
-    if (c.flags & 64) want.insert("W_h");
+    int const fl = c.flags_at(lines[i].step);
+    if (fl & 1) want.insert("d");
+    if (fl & 2) want.insert("v_d");
+    if (fl & 8) want.insert("ft_d");
+    if (fl & 4) want.insert("fa_d");
+    if (fl & 16) want.insert("E_h");
+    if (fl & 32) want.insert("x0_d");
+    if (fl & 64) want.insert("W_h");
     if (expect[i]->have_e) want.insert("e");
     if (lines[i].announced != want) {
       r.violation("C19:traj:announced-columns-differ-from-requested-outputs",
@@ -312,9 +324,11 @@ static void check_traj_case(TrajCase const &c, Result &r, std::string const &pre
     }
   }
   // textbook velocity: finite difference of the dictated values (dt = 1), defined from the second step of a run on
-  if (c.flags & 2) {
+  if ((c.flags & 2) || c.toggle) {
     for (size_t i = 0; i < lines.size(); i++) {
       long s = lines[i].step;
+      if (!(c.flags_at(s) & 2)) continue;
+      if (c.toggle && s <= c.toggle) continue;   // the first velocity after the column is switched on has no defined predecessor
       if (s == 0 || expect[i]->run > 0) continue;  // after a repeated step the reference previous value is ambiguous
       double vref = dist_of(VALS[c.word[s]]) - dist_of(VALS[c.word[s - 1]]);
       double a = lines[i].col["v_d"][0];
@@ -332,12 +346,15 @@ static void check_traj_case(TrajCase const &c, Result &r, std::string const &pre
 // Part 2: running averages and correlation functions
 // ============================================================================
 struct RA { int L, stride; };
-struct ACF { int len, stride, off; bool norm; bool p2 = false; };  // p2: corrFuncType coordinate_p2 (vector variables only)
+struct ACF { int len, stride, off; bool norm; bool p2 = false; bool cross = false; };  // cross: corrFuncWithColvar b, with b = d^2 (scalar runs only)
+//  // p2: corrFuncType coordinate_p2 (vector variables only)
 
+// first: step number of the first step of the run (a simulation continued from step `first` without a Colvars state)
 static void check_analysis_word(std::vector<int> const &word, std::vector<RA> const &ras, std::vector<ACF> const &acfs,
-                                Result &r, std::string const &prefix, bool vec)
+                                Result &r, std::string const &prefix, bool vec, long first = 0)
 {
   rm_prefix(prefix);
+  bool const first_step_nonzero = (first != 0);
   vproxy *px = new vproxy(2);
   place(*px, VALS[word[0]]);
   px->set_prefixes(prefix);
@@ -349,16 +366,18 @@ static void check_analysis_word(std::vector<int> const &word, std::vector<RA> co
     conf += "colvar {\n name r" + std::to_string(i) + "\n runAve on\n runAveLength " + std::to_string(ras[i].L) +
             "\n runAveStride " + std::to_string(ras[i].stride) + "\n " + comp +
             " {\n group1 { atomNumbers 1 }\n group2 { atomNumbers 2 }\n }\n}\n";
+  if (!vec) conf += "colvar {\n name b\n distance {\n componentExp 2\n group1 { atomNumbers 1 }\n group2 { atomNumbers 2 }\n }\n}\n";
   for (size_t i = 0; i < acfs.size(); i++)
-    conf += "colvar {\n name a" + std::to_string(i) + "\n corrFunc on\n corrFuncType " + ((acfs[i].p2 && vec) ? "coordinate_p2" : "coordinate") + "\n corrFuncLength " +
+    conf += "colvar {\n name a" + std::to_string(i) + "\n corrFunc on\n" + ((acfs[i].cross && !vec) ? " corrFuncWithColvar b\n" : "") + " corrFuncType " + ((acfs[i].p2 && vec) ? "coordinate_p2" : "coordinate") + "\n corrFuncLength " +
             std::to_string(acfs[i].len) + "\n corrFuncStride " + std::to_string(acfs[i].stride) + "\n corrFuncOffset " +
             std::to_string(acfs[i].off) + "\n corrFuncNormalize " + onoff(acfs[i].norm) + "\n " + comp +
             " {\n group1 { atomNumbers 1 }\n group2 { atomNumbers 2 }\n }\n}\n";
   if (px->config(conf) != 0) { fprintf(stderr, "HARNESS-ERROR: analysis config rejected: %s\n", px->errtxt.c_str()); exit(3); }
   long L = word.size();
+  if (first) { px->colvars->it = px->colvars->it_restart = first; }
   for (long s = 0; s < L; s++) {
     place(*px, VALS[word[s]]);
-    if (px->step(s) != 0) { fprintf(stderr, "HARNESS-ERROR: analysis step error: %s\n", px->errtxt.c_str()); exit(3); }
+    if (px->step(first + s) != 0) { fprintf(stderr, "HARNESS-ERROR: analysis step error: %s\n", px->errtxt.c_str()); exit(3); }
     r.count("transitions");
   }
   px->end_run();
@@ -392,12 +411,13 @@ static void check_analysis_word(std::vector<int> const &word, std::vector<RA> co
       for (auto &tok : t) if (tok != "(" && tok != ")" && tok != ",") nums.push_back(atof(tok.c_str()));
       size_t dim = vec ? 3 : 1;
       if (nums.size() != 2 + dim) { r.violation("C19:runave:line-malformed", "{\"line\":\"" + jesc(line) + "\"}"); continue; }
-      long s = (long) nums[0];
+      long s = (long) nums[0] - first;   // the label is the step number of the simulation
       nlines++;
       std::string det = "{\"part\":\"runave\",\"type\":\"" + kind + "\",\"values\":" + wj + ",\"runAveLength\":" + std::to_string(ras[i].L) +
-                        ",\"runAveStride\":" + std::to_string(ras[i].stride) + ",\"step\":" + std::to_string(s);
-      long first = s - (long) (ras[i].L - 1) * ras[i].stride;
-      if (s < 0 || s >= L || first < 0) { r.violation("C19:runave:line-for-incomplete-window", det + "}"); continue; }
+                        ",\"runAveStride\":" + std::to_string(ras[i].stride) + (first ? ",\"first_step_of_the_run\":" + std::to_string(first) : std::string()) +
+                        ",\"step_label\":" + std::to_string((long) nums[0]);
+      long wfirst = s - (long) (ras[i].L - 1) * ras[i].stride;
+      if (s < 0 || s >= L || wfirst < 0) { r.violation(std::string("C19:runave:line-for-incomplete-window") + (first_step_nonzero ? "/run-starting-at-a-nonzero-step" : ""), det + "}"); continue; }
       std::vector<double> mean(dim, 0.0);
       for (int k = 0; k < ras[i].L; k++) {
         std::vector<double> v = value(s - (long) k * ras[i].stride);
@@ -414,7 +434,7 @@ static void check_analysis_word(std::vector<int> const &word, std::vector<RA> co
       for (size_t c = 0; c < dim; c++)
         if (!close_rel(nums[1 + c], mean[c], std::max(1.0, std::fabs(mean[c])), 1e-11, 1e-12)) mean_ok = false;
       if (!mean_ok) {
-        std::string phase = (first >= 2 || (first >= 1 && ras[i].stride == 1)) ? "after-first-window" : "first-window";
+        std::string phase = (wfirst >= 2 || (wfirst >= 1 && ras[i].stride == 1)) ? "after-first-window" : "first-window";
         r.violation("C19:runave:mean-differs-from-window-mean/" + phase,
                     det + ",\"written_mean\":" + num(nums[1]) + ",\"expected_mean\":" + num(mean[0]) + "}");
       }
@@ -433,6 +453,7 @@ static void check_analysis_word(std::vector<int> const &word, std::vector<RA> co
 
   // ---- correlation functions (autocorrelation, coordinate type) ----
   for (size_t i = 0; i < acfs.size(); i++) {
+    if (first) break;   // (the file is written at multiples of the restart frequency in absolute steps: not at the end of such a run)
     ACF const &a = acfs[i];
     std::istringstream is(acftext[i]);
     std::string line;
@@ -450,7 +471,8 @@ static void check_analysis_word(std::vector<int> const &word, std::vector<RA> co
     if (a.norm) nsamples += 1;  // the header subtracts one "degree of freedom" when normalising
     std::string det = "{\"part\":\"acf\",\"type\":\"" + kind + "\",\"values\":" + wj + ",\"corrFuncLength\":" + std::to_string(a.len) +
                       ",\"corrFuncStride\":" + std::to_string(a.stride) + ",\"corrFuncOffset\":" + std::to_string(a.off) +
-                      ",\"normalize\":" + (a.norm ? "true" : "false") + ((a.p2 && vec) ? ",\"corrFuncType\":\"coordinate_p2\"" : "");
+                      ",\"normalize\":" + (a.norm ? "true" : "false") + ((a.p2 && vec) ? ",\"corrFuncType\":\"coordinate_p2\"" : "") +
+                      ((a.cross && !vec) ? ",\"corrFuncWithColvar\":\"b = d^2\"" : "");
     // time origins: the N most recent steps t whose whole row of lags exists
     long maxlag = (long) (a.off + a.len) * a.stride;
     std::vector<long> origins;
@@ -464,6 +486,7 @@ static void check_analysis_word(std::vector<int> const &word, std::vector<RA> co
       double c = 0;
       for (long t : origins) {
         std::vector<double> u = value(t), w = value(t - lag);
+        if (a.cross && !vec) w[0] = w[0] * w[0];   // C_ab(lag) = < a(t) b(t - lag) >, b = d^2
         double uw = 0, uu = 0, ww = 0;
         for (size_t k = 0; k < u.size(); k++) { uw += u[k] * w[k]; uu += u[k] * u[k]; ww += w[k] * w[k]; }
         if (a.p2 && vec) { double cs = uw / std::sqrt(uu * ww); c += 1.5 * cs * cs - 0.5; }  // second Legendre polynomial of the angle
@@ -480,6 +503,7 @@ static void check_analysis_word(std::vector<int> const &word, std::vector<RA> co
       if (a.norm) ref /= c0;
       if (!close_rel(rows[k].second, ref, std::max(1.0, std::fabs(ref)), 1e-10, 1e-12)) {
         std::string where = (k == 0 && a.off > 0) ? "first-row-with-offset" : (k == 0 ? "first-row" : "row");
+        if (a.cross && !vec) where = "cross-correlation/" + where;
         r.violation("C19:acf:value-differs-from-time-average/" + where,
                     det + ",\"lag\":" + std::to_string(lag) + ",\"written\":" + num(rows[k].second) + ",\"expected\":" + num(ref) + "}");
       }
@@ -530,6 +554,15 @@ int main(int argc, char **argv)
                 tc.push_back(TrajCase{flags, freq, split, restart, addcv, word});
               }
   }
+  // the same with the velocity column of d flipped from the script interface before step T (all T, a subset of the rest)
+  {
+    size_t n0 = tc.size();
+    for (size_t i = 0; i < n0; i += 7)
+      for (int T = 1; T < Ltraj; T++) {
+        if (tc[i].restart && tc[i].split && T <= tc[i].split) continue;  // (the flag is not part of the saved state: a new session starts from its configuration)
+        TrajCase c = tc[i]; c.toggle = T; tc.push_back(c);
+      }
+  }
   std::vector<RA> ras = {{2, 1}, {3, 1}, {3, 2}, {2, 2}};
   std::vector<ACF> acfs;
   for (int len = 2; len <= 3; len++)
@@ -538,6 +571,8 @@ int main(int argc, char **argv)
         for (int nrm = 0; nrm <= 1; nrm++) acfs.push_back(ACF{len, stride, off, nrm != 0});
   // second-Legendre-polynomial correlation functions (used for the vector-valued variable; same as coordinate for the scalar)
   for (int stride = 1; stride <= 2; stride++) for (int nrm = 0; nrm <= 1; nrm++) { ACF a{2, stride, 0, nrm != 0}; a.p2 = true; acfs.push_back(a); }
+  // cross-correlation with a second variable (scalar runs)
+  for (int stride = 1; stride <= 2; stride++) for (int nrm = 0; nrm <= 1; nrm++) { ACF a{2, stride, 0, nrm != 0}; a.cross = true; acfs.push_back(a); }
   long nana = 1;
   for (int i = 0; i < Lana; i++) nana *= nv_ana;
 
@@ -560,6 +595,7 @@ int main(int argc, char **argv)
         r.count("evaluations");
         r.count("analysis_words");
         check_analysis_word(word, ras, acfs, r, prefix, vec != 0);
+        if (!vec && (w % 5) == 2) { r.count("evaluations"); check_analysis_word(word, ras, acfs, r, prefix, false, 100); }
       }
       if (w == 27) {
         std::string wj = "[";
